@@ -103,4 +103,30 @@ theorem set_fits (jso s len jlen pd u1 u2 u3 dst cm cmalloc : Int) (hj : jso ≠
     rw [if_neg h1]
     resolve_ifs
     simp [hs, hneg]
+
+/-- `_json_object_get_string_len`: the byte count, whichever sign the length field has -/
+theorem get_len_abs (jso lenField u1 : Int) (n : Nat) (hn : (n : Int) ≤ 2147483646)
+    (hl : lenField = (n : Int) ∨ lenField = -(n : Int)) :
+    Translated._json_object_get_string_len jso lenField u1 = .ok { ret := n, calls := [] } := by
+  unfold Translated._json_object_get_string_len
+  simp only [TranslatedNum.ckS64_bind]
+  rcases hl with h | h <;> subst h
+  · by_cases hz : (n : Int) < 0
+    · omega
+    · resolve_ifs; rfl
+  · by_cases hz : n = 0
+    · subst hz; simp
+    · resolve_ifs
+      simp
+
+/-- `json_object_get_string_len`: 0 for NULL and non-strings; for a string what `_json_object_get_string_len` answers, as an
+`int` (exact: a string node never holds `INT_MAX - 1` bytes or more, `set_too_long`) -/
+theorem get_string_len_public (jso ty c : Int) (n : Nat) (hn : (n : Int) ≤ 2147483646) (hc : c = n) (hj : jso ≠ 0) :
+    Translated.json_object_get_string_len jso (typeString : Nat) c = .ok { ret := n, calls := [("_json_object_get_string_len", [jso])] } := by
+  unfold Translated.json_object_get_string_len
+  rw [typeString_val, if_pos hj, if_pos rfl]
+  subst hc
+  have : ((n : Int) + 2147483648) % 4294967296 - 2147483648 = n := by omega
+  simp [this]
+
 end JsonC.TranslatedStr
